@@ -98,3 +98,53 @@ func H_C10_AccessPrompt() {
 	vrt.Assert(calls == 2, "access-callback-not-reinvoked-once")
 	vrt.Assert(vals[0] == 1 && vals[1] == 2, "access-callback-values")
 }
+
+// H_C10_AccessSimple: the part of Access's contract that does not need an invalidation: the
+// callback is invoked once with the resolved value and Access returns exactly the callback's
+// result (nil or its error, symbolic); a resolver error is returned without invoking the
+// callback; afterwards Access's reference is gone (the value is released exactly once).
+func H_C10_AccessSimple() {
+	errResolve := errors.New("resolver error")
+	errCb := errors.New("callback error")
+	resolverFails := vrt.Bool("resolver-fails")
+	cbFails := vrt.Bool("cb-fails")
+	released, resolves := 0, 0
+	resolver := func(ctx context.Context, rel func()) (int, func(), error) {
+		vrt.Atomic(func() { resolves++ })
+		if resolverFails {
+			return 0, nil, errResolve
+		}
+		return 7, func() { vrt.Atomic(func() { released++ }) }, nil
+	}
+	rc := refcount.NewRefCount[int](context.Background(), false, nil, nil, resolver)
+	calls, got := 0, 0
+	err := rc.Access(context.Background(), func(ctx context.Context, val int) error {
+		calls++
+		got = val
+		vrt.Assert(ctx.Err() == nil, "access-callback-context-cancelled-without-invalidation")
+		if cbFails {
+			return errCb
+		}
+		return nil
+	})
+	if resolverFails {
+		vrt.Assert(err == errResolve, "access-resolver-error-not-returned")
+		vrt.Assert(calls == 0, "access-callback-invoked-after-resolver-error")
+	} else {
+		vrt.Assert(calls == 1 && got == 7, "access-callback-once-with-current-value")
+		if cbFails {
+			vrt.Assert(err == errCb, "access-returns-callback-result")
+		} else {
+			vrt.Assert(err == nil, "access-returns-callback-result")
+		}
+	}
+	vrt.AtQuiescence(func() {
+		vrt.Atomic(func() {
+			vrt.Assert(resolves == 1, "access-resolved-more-than-once")
+			if !resolverFails {
+				vrt.Assert(released == 1, "access-reference-not-released")
+			}
+		})
+		vrt.Cover("access-simple-end")
+	})
+}
